@@ -28,6 +28,7 @@ API_COVERAGE = [
     ['AbstractBasis.get_dofs (facets / elements / tags / collections / skip)', 'before', 'covered'],
     ['AbstractBasis.interpolate, split, split_bases', 'before', 'covered'],
     ['CellBasis.with_elements, CellBasis.with_element', 'before', 'covered'],
+    ['project(quadrature-point data, elements=subset) on a basis restricted to an UNSORTED cell list (Basis(elements=), with_elements)', 'no', 'now: projection_subset_of_restricted'],
     ['AbstractBasis.complement_dofs (arrays, dict)', 'no', 'now: patch_api_variants'],
     ['AbstractBasis.zeros / ones', 'no', 'now: patch_api_variants'],
     ['CellBasis.boundary(facets)', 'no', 'now: patch_api_variants (Neumann basis)'],
@@ -345,6 +346,8 @@ def _oracle(ctx):
                         ('parts-complex', lambda: O.projection_complex_parts(m, elem, rng, boundary=kind not in ('line', 'wedge'))),
                         ('subdomain', lambda: O.projection_subdomain(m, elem, rng)),
                         ('subdomain-arg', lambda: O.projection_subdomain(m, elem, rng, via_argument=True))]
+                if m.t.shape[1] >= 2 and elem.refdom.dim() == m.dim() and not isinstance(elem, type(None)):
+                    runs.append(('subset-of-unsorted-restricted-basis', lambda: O.projection_subset_of_restricted(m, elem, rng)))
                 if kind not in ('line', 'wedge'):
                     runs += [('boundary', lambda: O.projection_boundary(m, elem, rng)),
                              ('boundary-arg', lambda: O.projection_boundary(m, elem, rng, explicit=True)),
